@@ -30,6 +30,8 @@ struct vf_iter { int done; };
 static const char *vf_err_name;
 void dbus_set_error (DBusError *e, const char *name, const char *fmt, ...) { vf_err_name = name; if (e) { e->name = name; e->message = "m"; } }
 void bus_connection_remove_match_rule (DBusConnection *c, BusMatchRule *r) { c->n_rules_removed++; }
+static int add_reg_ok = 1, n_registered;
+dbus_bool_t bus_connection_add_match_rule (DBusConnection *c, BusMatchRule *r) { if (!add_reg_ok) return 0; n_registered++; return 1; }
 dbus_bool_t bus_connection_is_active (DBusConnection *c) { return 1; }
 const char *bus_connection_get_name (DBusConnection *c) { return c->id == 0 ? ":1.0" : ":1.1"; }
 void *_dbus_hash_table_lookup_string (DBusHashTable *h, const char *k) { return 0; }
@@ -134,6 +136,23 @@ void harness (void)
       k++;
     }
   VF_ASSERT (l == 0, "nothing else left in the pool");
+#elif MODE == 2
+  /* AddMatch stores one more rule, even if an equal rule of the same connection is already there (each AddMatch needs its own RemoveMatch) */
+  v = make_rule (&qv, mtype); v->refcount = 1; add_reg_ok = vf_bool ();
+  ok = bus_matchmaker_add_rule (&mm, v);
+  l = _dbus_list_get_first_link (pool);
+  for (i = 0; i < L; i++) { VF_ASSERT (l != 0 && l->data == r[i] && r[i]->refcount == 2, "existing rules stay, in order"); if (l) l = _dbus_list_get_next_link (pool, l); }
+  if (ok)
+    {
+      VF_ASSERT (l != 0 && l->data == v && _dbus_list_get_next_link (pool, l) == 0, "the new rule is appended as one more entry, whether or not an equal rule exists");
+      VF_ASSERT (v->refcount == 2 && n_registered == 1, "the matchmaker holds its own reference and the rule is counted against its connection");
+      for (i = 0; i < L; i++) if (ref_rule_equal (&q[i], &qv)) VF_WITNESS_OPT ("a duplicate rule was added");
+      VF_WITNESS_OPT ("rule added");
+    }
+  else
+    {
+      VF_ASSERT (l == 0 && v->refcount == 1 && n_registered == 0, "a failed AddMatch leaves the pool unchanged");
+    }
 #else
   {
     int who = vf_range (0, 1);
